@@ -18,7 +18,7 @@ COQ = os.path.join(VERIF, "coq")
 # property -> operations whose model/implementation agreement the property's theorems rest on, with case counts
 CONE = {
     "C01": [("tok_roundtrip", 400), ("tok_stateful", 100), ("util", 150), ("digitise", 60)],
-    "C02": [("vocab", 40), ("tok_roundtrip", 250), ("tok_stream", 250)],
+    "C02": [("vocab", 40), ("tok_roundtrip", 250), ("tok_stream", 250), ("util", 60)],
     "C03": [("tok_stateful", 400)],
     "C04": [("history", 350), ("scale_down", 150), ("to_abs", 200), ("to_rel", 200), ("rel_abs_rel", 200), ("getters", 120)],
     "C05": [("quantise", 800)],
